@@ -124,8 +124,8 @@ pub enum ColumnDecl {
 impl AnchorContext {
     /// Returns a new AnchorContext object based on a Query object. This method
     /// generates new IDs and names for tables and columns as needed.
-    pub fn of(query: RelationalQuery) -> (Self, Relation) {
-        let (cid, tid, query) = IdGenerator::load(query);
+    pub fn of(query: RelationalQuery) -> Result<(Self, Relation)> {
+        let (cid, tid, query) = IdGenerator::load(query)?;
 
         let context = AnchorContext {
             cid,
@@ -135,7 +135,7 @@ impl AnchorContext {
             table_name: NameGenerator::new("table_"),
             ..Default::default()
         };
-        QueryLoader::load(context, query)
+        Ok(QueryLoader::load(context, query))
     }
 
     // /// Generates a new ID and name for a wildcard column and registers it in the
